@@ -103,6 +103,15 @@ func monoOfCtx(v ssa.Value, ctx dctx, depth int) mono {
 				return mono{'-', '0'}
 			}
 		}
+		if _, ok := unixUnit[n]; ok {
+			// LastAccess as a number shrinks as the age grows; the instant of the scan is a constant
+			if isLastAccessCtx(args[0], ctx) {
+				return mono{'-', '0'}
+			}
+			if isNowCtx(args[0], ctx, 0) {
+				return mono{'0', '0'}
+			}
+		}
 		// a helper computing the priority: evaluate what it returns (single return value)
 		if sc := staticCallee(x); sc != nil {
 			g := unwrapSynthetic(sc)
@@ -271,6 +280,9 @@ func ageResOf(v ssa.Value, ctx dctx, depth int) (ageRes, bool) {
 				return ageRes{scale: 1, quantum: 1}, true
 			}
 		}
+		if ns, ok := unixUnit[n]; ok && isLastAccessCtx(args[0], ctx) {
+			return ageRes{scale: 1 / ns, quantum: ns, what: n}, true
+		}
 		if sc := staticCallee(x); sc != nil {
 			g := unwrapSynthetic(sc)
 			if g != nil && g.Blocks != nil && isModPath(originPkgPath(g)) {
@@ -291,6 +303,49 @@ func ageResOf(v ssa.Value, ctx dctx, depth int) (ageRes, bool) {
 		}
 	}
 	return ageRes{}, false
+}
+
+// isNowCtx: v is an instant taken with time.Now() — directly, through a local, through a variable the
+// enclosing function captured, or through a helper parameter bound to one.
+func isNowCtx(v ssa.Value, ctx dctx, depth int) bool {
+	if depth > 6 {
+		return false
+	}
+	v = resolveVal(v)
+	switch x := v.(type) {
+	case *ssa.Call:
+		return calleeName(x) == "time.Now"
+	case *ssa.Parameter:
+		if a, c2, ok := paramArg(x, ctx); ok {
+			return isNowCtx(a, c2, depth+1)
+		}
+	case *ssa.FreeVar:
+		if b := freeVarBinding(x); b != nil {
+			return isNowCtx(b, ctx, depth+1)
+		}
+	case *ssa.UnOp:
+		if x.Op != token.MUL {
+			return false
+		}
+		cell := x.X
+		if fv, ok := cell.(*ssa.FreeVar); ok {
+			cell = freeVarBinding(fv)
+		}
+		if a, ok := cell.(*ssa.Alloc); ok {
+			if st := storesTo(a); len(st) == 1 {
+				return isNowCtx(st[0].Val, ctx, depth+1)
+			}
+		}
+	}
+	return false
+}
+
+// unixUnit: the Unix-epoch accessors of time.Time and the nanoseconds one unit of their result stands for.
+var unixUnit = map[string]float64{
+	"(time.Time).UnixNano":  1,
+	"(time.Time).UnixMicro": 1e3,
+	"(time.Time).UnixMilli": 1e6,
+	"(time.Time).Unix":      1e9,
 }
 
 func isLastAccessCtx(v ssa.Value, ctx dctx) bool {
@@ -316,7 +371,7 @@ func checkC13(c *Ctx, r *Report) {
 		"R8 evictions started from a store run without the store's own shard lock (may-held set at the call has no shard lock), so no candidate is skipped because of the caller",
 		"R1 every call of evict is control-dependent on size >= limit where size is the backend's byte counter and the limit is read live (atomic/config read), not a constructor-time copy",
 		"R2 in evict's removal loop every removal is preceded, in the same iteration, by the exit test getCacheSize() <= target, and target is the limit × 0.8",
-		"R3 victims are sorted by descending priority (comparator compares second argument's priority with the first's) and the loop walks from the front; priority is non-decreasing in age since last access and in size",
+		"R3 victims are sorted by descending priority (comparator compares second argument's priority with the first's) and the loop walks from the front; priority is non-decreasing in age since last access and in size, and the age reaches it at the resolution LastAccess is recorded with (no truncating accessor, integer division or float-to-integer conversion collapses ages more than 1 ns apart)",
 		"R4 cleanup re-evaluates expiry of the entry stored under the key after acquiring its lock (isExpired==true dominates the removal; no act-on-stale-check)",
 		"R5 only keys whose metadata is expired at scan time are collected",
 		"R6 every removal by the janitor (eviction and cleanup) happens with the key lock of that entry held exclusively — taken with TryLock (skip on failure) or by a dominating blocking Lock; whether waiting is permitted there is decided by C14",
